@@ -475,6 +475,13 @@ def canon_py(x):
     return (type(x).__name__, repr(x))
 
 
+def tuple_family_clash(t):
+    if t.kind in ("union", "optional"):
+        kinds = [a.kind for a in t.kids]
+        if "namedtuple" in kinds and ({"tuple", "vtuple"} & set(kinds)): return True
+    return any(tuple_family_clash(k) for k in t.kids)
+
+
 def ser_part(seed, budget):
     """serialization side of C08: results do not depend on no_copy, check_type (well-typed values), function vs precomputed
     method, nor - up to what serialization_default completes - on PassThroughOptions"""
@@ -515,6 +522,9 @@ def ser_part(seed, budget):
                                          info={"baseline": repr(base)[:300], name: repr(o)[:300]}))
                     break
             # pass-through: what is left untouched is completed by serialization_default
+            # (a NamedTuple next to a tuple alternative of a union is a tuple for the first-match rule once tuples pass through:
+            #  the ambiguity of finding KF29, outside this comparison)
+            if tuple_family_clash(t): continue
             flags = {k: rnd.random() < 0.5 for k in ("any", "collections", "dataclasses", "enums", "tuple")}
             if flags["collections"]: pass
             try:
